@@ -24,6 +24,7 @@ def noNodes : Ty → Bool
   | .garray _ t => noNodes t
   | .seq k _ t => noNodes t && (match k with | .vec | .deque | .heap => true | _ => false)
   | .box _ t => noNodes t
+  | .wrap t => noNodes t
   | .range t => noNodes t
   | .enum _ ts => noNodesList ts
   | _ => true
@@ -66,6 +67,8 @@ theorem decodeR_eq_decodeP : ∀ ty : Ty, noNodes ty = true → decodeR ty = dec
     have ih := decodeR_eq_decodeP t h.1
     cases k <;> simp only [decodeR, decodeP, ih] <;> simp at h
   | .box sz t, h => by
+    simp only [decodeR, decodeP, decodeR_eq_decodeP t (by simpa [noNodes] using h)]
+  | .wrap t, h => by
     simp only [decodeR, decodeP, decodeR_eq_decodeP t (by simpa [noNodes] using h)]
   | .range t, h => by
     simp only [decodeR, decodeP, decodeR_eq_decodeP t (by simpa [noNodes] using h)]
